@@ -262,6 +262,62 @@ func checkC04(c *Ctx) {
 			"the transport remembers something across connections ("+firstN(strings.Join(bad, "; "), 140)+"): whether a registered client's flight is recognised then depends on the connections before it")
 	}
 
+	// ---- C04.17 "finds that client's registration no matter how the first flight is split": in every round each remaining
+	// transport is offered the buffer. A candidate list walked by index must not lose an element to the removal of its
+	// neighbour: deleting list[idx] (append(list[:idx], list[idx+1:]...)) while the only step of the counter is idx+1
+	// skips the element that slid into idx - the skipped transport is not consulted for that round, and a flight that
+	// arrived in one piece is never looked at again
+	r.Rule("C04.17", "no candidate is skipped when another is removed from the list being walked", 1)
+	if f := c.fn("C04.17", "cmd/application", "connManager", "handleNewTCPConn"); f != nil {
+		nRem, bad := 0, false
+		var pos token.Pos = f.Pos()
+		eachInstr(f, func(in ssa.Instruction) {
+			call, ok := in.(*ssa.Call)
+			if !ok {
+				return
+			}
+			b, isB := call.Call.Value.(*ssa.Builtin)
+			if !isB || b.Name() != "append" || len(call.Call.Args) != 2 {
+				return
+			}
+			lo, ok1 := call.Call.Args[0].(*ssa.Slice)
+			hi, ok2 := call.Call.Args[1].(*ssa.Slice)
+			if !ok1 || !ok2 || lo.High == nil || hi.Low == nil || lo.Low != nil {
+				return
+			}
+			add, isAdd := hi.Low.(*ssa.BinOp)
+			if !isAdd || add.Op != token.ADD || add.X != lo.High {
+				return
+			}
+			ph, isPhi := lo.High.(*ssa.Phi)
+			if !isPhi {
+				return
+			}
+			nRem++
+			// every value the counter takes on a back edge: if all of them are "this phi + 1", nothing compensates
+			onlyInc := true
+			for _, e := range ph.Edges {
+				if cst, isC := e.(*ssa.Const); isC && cst.Value != nil {
+					continue // the initial value
+				}
+				inc, isInc := e.(*ssa.BinOp)
+				if !isInc || inc.Op != token.ADD || inc.X != ssa.Value(ph) {
+					onlyInc = false
+				}
+			}
+			if onlyInc {
+				bad = true
+				pos = in.Pos()
+			}
+		})
+		if nRem == 0 {
+			r.OK("C04.17", "handleNewTCPConn: candidates are not removed from an index-walked list", f.Pos(), "the candidate set is a map pruned with delete (safe during range)")
+		} else {
+			r.Check(!bad, "C04.17", "handleNewTCPConn: removal from the walked list compensates the counter", pos, fnName(f), "the counter has a back-edge value other than idx+1",
+				"a transport is removed from the list at the index being visited and the counter still advances by one: the transport that moved into that index is skipped for the round - with the whole flight already buffered it is never consulted again, and the client is dropped at the deadline")
+		}
+	}
+
 	// ---- C04.14 obfs4 recognises every padding the client can draw: the search for the mark starts right behind the
 	// shortest possible prefix of a client flight - the representative plus the minimum padding - not later
 	r.Rule("C04.14", "the obfs4 mark search starts at representative + minimum padding", 1)
